@@ -46,6 +46,15 @@ def main():
                 # an 'unproved' replay names what no longer checks: re-run the check itself
                 mod.run(ctx)
         else:
+            # regression corpus first: minimized inputs of past failures (fixed defects, seeded changes)
+            for f in sorted((core.CORPUS / pid).glob('*.json')):
+                if f.name.startswith(('seeded-', 'regress-')):
+                    try:
+                        mod.replay(ctx, json.loads(f.read_text())['scenario'])
+                        ctx.tier = tier
+                        ctx.dist['corpus-scenarios'] += 1
+                    except Exception as e:     # a stale corpus file must not hide the real run
+                        ctx.note(f'corpus file {f.name} could not be replayed: {e!r}')
             mod.run(ctx)
             lean = ctx.lean or {}
             broken = (any(s != 'proved' for s in (lean.get('theorems') or {}).values())
